@@ -6,9 +6,31 @@ package kmip
  * License, v. 2.0. If a copy of the MPL was not distributed with this
  * file, You can obtain one at http://mozilla.org/MPL/2.0/. */
 
+import (
+	"fmt"
+	"reflect"
+	"strings"
+)
+
 // VerifDiscoverVersions exposes the built-in Discover Versions handler to the verification
 // harness (built only with -tags verif), so that the value it returns - not just its encoding -
 // can be inspected for aliasing with the server's configuration.
 func (s *Server) VerifDiscoverVersions(req *RequestContext, item *RequestBatchItem) (interface{}, error) {
 	return s.handleDiscoverVersions(req, item)
+}
+
+// VerifStructDesc exposes the structure descriptor getStructDesc computes for a type (built only
+// with -tags verif): the structure's tag, then name:tag:type:required:sliceof:skip:dynamic per field.
+func VerifStructDesc(t reflect.Type) (string, error) {
+	sd, err := getStructDesc(t)
+	if err != nil {
+		return "", err
+	}
+
+	parts := []string{fmt.Sprintf("tag=%x", uint32(sd.tag))}
+	for _, f := range sd.fields {
+		parts = append(parts, fmt.Sprintf("%s:%x:%x:%t:%t:%t:%t", f.name, uint32(f.tag), uint8(f.typ), f.required, f.sliceof, f.skip, f.dynamic))
+	}
+
+	return strings.Join(parts, " "), nil
 }
